@@ -223,6 +223,8 @@ def judge_cases(ctx, cases, outs, prefix, what, per_case_evals):
 # ---- overlap the (quick) failing-input search with the correspondence -------------------------------------
 import threading
 
+THREADS = 4     # the harnesses run Python bodies; idle OpenMP threads only spin on a loaded machine
+
 
 def start_search(ctx, script, payload, timeout=3000):
     """Start the quick-strength search harness in the background (it is a separate OS process); `finish_search`
@@ -230,7 +232,7 @@ def start_search(ctx, script, payload, timeout=3000):
     box = {}
 
     def work():
-        box["res"] = ctx.run_impl(script, payload, timeout=timeout)
+        box["res"] = ctx.run_impl(script, payload, timeout=timeout, threads=THREADS)
     t = threading.Thread(target=work, daemon=True)
     t.start()
     ctx._bg_search = (t, box, dict(payload))
@@ -244,7 +246,7 @@ def finish_search(ctx, script, payload, timeout=3000):
         ctx._bg_search = None
         if started == payload and box.get("res") is not None:
             return box["res"]
-    return ctx.run_impl(script, payload, timeout=timeout)
+    return ctx.run_impl(script, payload, timeout=timeout, threads=THREADS)
 
 
 def report_search(ctx, res):
